@@ -252,7 +252,7 @@ class Shim:
         rec = [name, args, None, k]           # k = index of this library-boundary operation (fault plans address it)
         self.trace.append(rec)
         gate = self.plan.get('gate')          # lock-step scheduling: [read_fd, write_fd]; wait for the controller's turn
-        if gate is not None and name in ('exists', 'open', 'write', 'close', 'move', 'remove', 'unlink', 'makedirs'):
+        if gate is not None and name in ('exists', 'lexists', 'open', 'write', 'close', 'move', 'remove', 'unlink', 'makedirs'):
             try:
                 self.orig['os.write'](gate[1], b'r')
                 self.orig['os.read'](gate[0], 1)
@@ -271,7 +271,9 @@ class Shim:
                 raise OSError(second[1], os.strerror(second[1]))
             if faults and name in faults:
                 spec = faults[name]
-                if not spec.get('path') or any(spec['path'] in str(a) for a in args):
+                if spec.get('excl') and not (len(args) > 1 and isinstance(args[1], int) and args[1] & os.O_EXCL):
+                    pass                        # only exclusive creates are refused (a file system that rejects O_EXCL)
+                elif not spec.get('path') or any(spec['path'] in str(a) for a in args):
                     if spec.get('after', 0) < self._bump(name):
                         raise OSError(spec['errno'], os.strerror(spec['errno']))
             r = fn()
